@@ -432,6 +432,7 @@ static inline int myth_create_ex_body(myth_thread_t * id,
 
   // Initialize thread descriptor
   init_myth_thread_struct(env, new_thread);
+  if (attr && attr->detachstate) new_thread->detached = 1;
   new_thread->result = arg;
 
   size_t stk_size = stack_size - sizeof(void*) * 2;
